@@ -22,7 +22,7 @@ META = {
         "backticks, && / || lines; any part may also appear as the body of an if/for/def/while/class/with/else block (the next part then starts at a "
         "DEDENT).  Parts may end with blank/comment lines but never start with one.  Oracle (metamorphic, no reference parser "
         "needed): parse(p1+...+pk).body equals, with positions, the concatenation of parse(pi).body shifted by the number of lines before pi "
-        "(ast.increment_lineno), compared with astdiff; a list that parses although one of its parts is rejected on its own is a violation too (parts end their last logical line themselves).  non-trivial = some xonsh part is not last and is followed by a compound statement or "
+        "(ast.increment_lineno), compared with astdiff; a list that parses although one of its parts -- a complete program for CPython -- is rejected on its own is a violation too.  non-trivial = some xonsh part is not last and is followed by a compound statement or "
         "another macro; distinct by text.  Histogram over ordered pairs of statement kinds."
     ),
     "assumptions": ["a blank/comment line right after a with-macro block belongs to the macro (the suite documents it), hence parts never start with one"],
@@ -53,6 +53,18 @@ def body_of(src):
     return o
 
 
+def cpython_accepts(src: str) -> bool:
+    import warnings
+
+    try:
+        with warnings.catch_warnings():
+            warnings.simplefilter("ignore")
+            ast.parse(src)
+        return True
+    except (SyntaxError, ValueError, RecursionError, MemoryError):
+        return False
+
+
 def check(rec, case):
     parts = case["parts"]
     kinds = case.get("kinds", ["?"] * len(parts))
@@ -63,11 +75,11 @@ def check(rec, case):
             alone[p] = outcome(p, "exec")
         o = alone[p]
         if o.kind != "tree":
-            # outside the property as stated -- unless the list as a whole parses: every part ends its last logical line
-            # itself (parts end in a line end, nothing is left open), so what is rejected alone cannot become acceptable
-            # through what follows it; if it does, the parts were not parsed independently
-            w = outcome("".join(parts), "exec")
-            if w.kind == "tree" and o.kind in ("error", "tokenerror"):
+            # outside the property as stated -- unless the part is a complete program for CPython (so it is neither an
+            # indented fragment that needs a block before it nor something left open that needs what follows) and the
+            # list as a whole parses: then it was accepted in company and rejected alone, i.e. not parsed independently
+            w = outcome("".join(parts), "exec") if cpython_accepts(p) else None
+            if w is not None and w.kind == "tree" and o.kind in ("error", "tokenerror"):
                 rec.case(case, True, labels=["part-rejected-alone"], key="".join(parts))
                 cn = o.canon()
                 rec.fail(dict(case, src="".join(parts)), f"whole-accepted-though-part-rejected-alone:{o.etype}", {"part": p[:200], "alone": [str(x)[:120] for x in cn], "kinds": kinds})
